@@ -263,6 +263,14 @@ Definition c10_has_items (pd : parsed) : bool :=
 
 Definition c10_cls10 (b : bool) (s : string) : list string := if b then [s] else [].
 
+(* convert_case's Snake drops leading separators; what is left must start an identifier *)
+Fixpoint c10_drop_seps (s : str) : str :=
+  match s with
+  | c :: r => if (c =? ch_us) || (c =? ch_dash) || (c =? ch_sp) then c10_drop_seps r else s
+  | [] => []
+  end.
+Definition c10_py_bad_name (s : str) : bool := match c10_drop_seps s with [] => true | c :: _ => is_adigit c end.
+
 (* the type applies type arguments to one of the given names, at any depth *)
 Fixpoint c10_mentions_applied (names : list str) (t : rtype) : bool :=
   match t with
@@ -291,6 +299,13 @@ Definition known_C10 (l : c10_lang) (package : str) (pd : parsed) : list string 
     c10_cls10 (existsb (fun a => c10_mentions_applied (map (fun e => renamed (eid (enum_shared e)))
                                                          (filter (fun e => match egenerics (enum_shared e) with [] => false | _ => true end) (p_enums pd)))
                                                     (atype a)) (p_aliases pd)) "C10-python-generic-enum-arg" ++
+    (* a name made by Case::Snake that comes out empty or with a leading digit: an attribute named after a Rust field
+       `_1x` / `__`, or a member of the <Enum>Types class named after a variant renamed to "1x" / "_-1" *)
+    c10_cls10 (existsb (fun f => c10_py_bad_name (original (fid f))) (c10_all_fields pd) ||
+               existsb (fun e => match e with
+                                 | EAlgebraic _ _ sh => existsb (fun v => c10_py_bad_name (renamed (vid (variant_shared v)))) (evariants sh)
+                                 | EUnit _ => false
+                                 end) (p_enums pd)) "C10-python-digit-name" ++
     (* `Name = Union[]` for an algebraic enum without variants: a syntax error *)
     c10_cls10 (existsb (fun e => match e with
                              | EAlgebraic _ _ sh => match evariants sh with [] => true | _ => false end
